@@ -30,8 +30,8 @@ def common_labels(spec, obs):
         labs.append("reused_instance")
     if t.get("naming"):
         labs.append("names:" + t["naming"])
-    if t["objective"].get("integer"):
-        labs.append("objective:int-" + t["objective"]["integer"])
+    if t["objective"].get("returns"):
+        labs.append("objective-returns:" + t["objective"]["returns"])
     if obs.outcome == "exc":
         labs.append("raised:" + obs.exc_key[0])
     return labs
